@@ -132,7 +132,7 @@ class Result:
         self.classes = collections.Counter(); self.fns = collections.Counter(); self.errs = collections.Counter()
         self.samples = []; self.any = 0; self.notes = collections.Counter(); self.harness_errors = []
 
-def compare(prop, case_lines, res):
+def compare(prop, case_lines, res, run=None):
     """three-way comparison (DESIGN.md §2).  Lines starting with `!` are verdict lines produced by
     in-harness oracles: `!OK fn args # class`, `!FAIL fn args :: what # class`, `!NOTE text`."""
     todo = []
@@ -149,7 +149,7 @@ def compare(prop, case_lines, res):
             res.distinct.add(lhs)
             if not cls.startswith("trivial"): res.nontrivial.add(lhs)
             if len(res.samples) < 6 and (res.n % 97 == 1): res.samples.append(l[:400])
-            if not ok: res.spec_fail.append({"case": lhs, "what": body.split(" :: ", 1)[-1], "kind": "impl-vs-oracle"})
+            if not ok: res.spec_fail.append({"case": lhs, "what": body.split(" :: ", 1)[-1], "kind": "impl-vs-oracle", "run": run})
             continue
         pc = parse_case(l)
         if pc is None:
@@ -184,9 +184,9 @@ def compare(prop, case_lines, res):
         if not trivial: res.nontrivial.add(lhs)
         if spec == "ANY": res.any += 1
         elif not same(impl, spec):
-            res.spec_fail.append({"case": lhs, "impl": impl[:2000], "spec": spec[:2000], "model": model[:2000], "kind": "impl-vs-spec"})
+            res.spec_fail.append({"case": lhs, "impl": impl[:2000], "spec": spec[:2000], "model": model[:2000], "kind": "impl-vs-spec", "run": run})
         if model != "ANY" and not same(impl, model):
-            res.model_fail.append({"case": lhs, "impl": impl[:2000], "model": model[:2000], "spec": spec[:2000], "kind": "impl-vs-model"})
+            res.model_fail.append({"case": lhs, "impl": impl[:2000], "model": model[:2000], "spec": spec[:2000], "kind": "impl-vs-model", "run": run})
         if len(res.samples) < 6 and (res.n % 211 == 1):
             res.samples.append((lhs + " => " + impl)[:400] + " || model=" + model[:100] + " spec=" + spec[:100])
 
@@ -248,7 +248,7 @@ def check(prop, tier, seed, budget=None):
         lines = out.split("\n")
         if rc != 0:
             res.harness_errors.append(f"harness exit {rc} (seed {extra.get('seed', seed)} args {extra.get('args', ())}): {err[-800:]}")
-        compare(prop, lines, res)
+        compare(prop, lines, res, run={"tier": tier, "seed": extra.get("seed", seed), "args": list(extra.get("args", ()))})
     known = load_known()
     viol = []; known_hits = {}
     for f in res.spec_fail:
@@ -265,7 +265,7 @@ def check(prop, tier, seed, budget=None):
         for extra in cfg.get("search", lambda t, s: [])(tier, seed):
             r2 = Result()
             rc, out, err = run_harness(prop, "thorough", extra.get("seed", seed), extra.get("args", ()), timeout=extra.get("timeout", 1800))
-            compare(prop, out.split("\n"), r2)
+            compare(prop, out.split("\n"), r2, run={"tier": "thorough", "seed": extra.get("seed", seed), "args": list(extra.get("args", ()))})
             searched += r2.n
             for f in r2.spec_fail:
                 if not match_known(prop, f, known): viol.append(f)
@@ -313,6 +313,9 @@ def check(prop, tier, seed, budget=None):
 
 
 def replay(prop, path):
+    """re-run the recorded failing cases: the harness run that produced them is repeated (same tier / seed / args, so the same
+    case lines are generated from the current /repo tree), the recorded cases are picked out by their left-hand side and sent
+    through implementation, model and spec again; prints the three values and exits 1 if a case still fails"""
     d = json.load(open(path))
     fails = d.get("failures", [])
     if not fails:
@@ -320,13 +323,29 @@ def replay(prop, path):
     with Lock(".buildlock"):
         cargo_build(); lake_build(["hcdrv"])
     st = 0
+    by_run = collections.OrderedDict()
     for f in fails:
-        fn = f["case"].split(" ")[0]
-        rc, out, err = run_harness(prop, "replay", 0, ["--case", f["case"]])
-        r = Result(); compare(prop, out.split("\n"), r)
-        print("case:", f["case"][:300]); print("  recorded:", {k: f[k] for k in f if k != "case"})
-        print("  now: spec_fail=%d model_fail=%d" % (len(r.spec_fail), len(r.model_fail)))
-        if r.spec_fail: st = 1
+        r = f.get("run") or {"tier": "quick", "seed": 1, "args": []}
+        by_run.setdefault(json.dumps(r, sort_keys=True), []).append(f)
+    for rk, fs in by_run.items():
+        r = json.loads(rk)
+        rc, out, err = run_harness(prop, r["tier"], r["seed"], r["args"])
+        want = set(f["case"] for f in fs)
+        lines = []
+        for l in out.split("\n"):
+            if l.startswith("!"):
+                body = l.split(" ", 1)[1] if " " in l else ""
+                lhs = body.rsplit(" # ", 1)[0].split(" :: ")[0]
+            else:
+                pc = parse_case(l); lhs = pc[0] if pc else None
+            if lhs in want: lines.append(l)
+        res = Result(); compare(prop, lines, res, run=r)
+        print(f"run tier={r['tier']} seed={r['seed']} args={r['args']}: {len(lines)} of {len(want)} recorded cases regenerated")
+        for l in lines[:10]: print("  case:", l[:400])
+        for f in res.spec_fail[:10]: print("  STILL FAILS (impl vs spec):", json.dumps({k: f[k] for k in f if k != "run"})[:700])
+        for f in res.model_fail[:10]: print("  model disagrees:", json.dumps({k: f[k] for k in f if k != "run"})[:500])
+        if res.spec_fail or res.model_fail: st = 1
+        if len(lines) < len(want): print("  (some recorded cases were not regenerated: generation depends on library randomness or the tree changed)")
     return st
 
 
